@@ -47,7 +47,7 @@ def ep_record(ep):
     return dict(kind="?" + type(ep).__name__, host="", port=0, path="")
 
 
-def choose(existing, requested, path, twice=False):
+def choose(existing, requested, path, twice=False, overlap=False):
     """existing: list of SOCKSPort lines Tor reports ([] with default='9050' means 'unset, default in force')"""
     lines = list(existing["lines"])
     proto = TorControlProtocol()
@@ -75,6 +75,7 @@ def choose(existing, requested, path, twice=False):
     sim.pump()
     reactor = oa.PortReactor()
     fired = []
+    first = []
     err = False
     try:
         if path == "tor_cfg":
@@ -94,11 +95,17 @@ def choose(existing, requested, path, twice=False):
             d = tor._default_socks_endpoint()
         elif path == "tor":
             tor = txtorcon.Tor(reactor, proto)
-            if requested:
-                from txtorcon.endpoints import _create_socks_endpoint
-                d = _create_socks_endpoint(reactor, proto, socks_config=requested)
-            else:
-                d = tor._default_socks_endpoint()
+            from txtorcon.endpoints import _create_socks_endpoint
+
+            def ask():
+                if requested:
+                    return _create_socks_endpoint(reactor, proto, socks_config=requested)
+                return tor._default_socks_endpoint()
+            if overlap:
+                # two parts of the application ask at the same time: the second request is made before Tor has answered
+                # anything of the first (only done where a configured port serves the request)
+                ask().addBoth(first.append)
+            d = ask()
         elif path == "cfgsync":
             # the synchronous form: an already configured port only
             cd = TorConfig.from_protocol(proto)
@@ -124,9 +131,11 @@ def choose(existing, requested, path, twice=False):
         ep = fired[0]
     else:
         err = True
+    if overlap and (not first or isinstance(first[0], failure.Failure) or ep is None or ep_record(first[0]) != ep_record(ep)):
+        err = True          # (the two requests are the same: so are their answers)
     newport = reactor.given[0][0] if reactor.given else 0
     eff = lines if lines else ([existing["default"]] if existing.get("default") else [])
-    v = dict(part="a", path=path, twice=bool(twice), reqfirst=(requested.split()[0] if requested else ""), lookupfails=bool(existing.get("lookupfails")), existing=[entry(l) for l in eff], requested=requested or "",
+    v = dict(part="a", path=path, twice=bool(twice), overlap=bool(overlap), reqfirst=(requested.split()[0] if requested else ""), lookupfails=bool(existing.get("lookupfails")), existing=[entry(l) for l in eff], requested=requested or "",
              reqep=ep_record_from_text(requested) if requested else dict(kind="", host="", port=0, path=""),
              obs=dict(setconf=sets[0] if sets else [], nset=len(sets), ep=ep_record(ep) if ep is not None else dict(kind="none", host="", port=0, path=""),
                       newport=newport, newtext=str(newport), err=err))
